@@ -5,7 +5,8 @@
    only after persist.  The partitions computed here are exactly those of Store.v (K1), so the
    lock-step invariant of C01/C05 (by id <-> in its context <-> under its topic) holds of every
    recovered image. *)
-From XS Require Import Model.Crash Proofs.CrashP.
+From XS Require Import Model.Crash Model.Spec Proofs.CrashP Proofs.Inv Proofs.RefineA Proofs.Corollaries Proofs.CrashInvP.
+From Coq Require Import Sorted.
 
 (* the journal model computes the partitions of the store model *)
 Theorem C04_model_link_insert : forall s f,
@@ -48,6 +49,36 @@ Theorem C04_power_acked : forall ops k, (k < length ops)%nat -> forall n o img,
 Proof. exact power_acked. Qed.
 Print Assumptions C04_power_all_or_nothing.
 Print Assumptions C04_power_acked.
+
+(* the recovered image is not just "some prefix": it is the partition triple of a store state that
+   satisfies the lock-step invariant of C01/C05 (InvZ: the three partitions are the key-sorted
+   encodings of one id-sorted list of valid frames, and the registry is the set of live context
+   frames) - for every admissible journal (the hypotheses of the refinement theorem) *)
+Theorem C04_crash_image_consistent : forall now js k n,
+  (k < length js)%nat -> admissible now (map jop_to_op js) ->
+  exists s a, InvZ s a /\
+    replay (kill_image (crash_state js k n)) = parts_of s /\
+    (s = c_after now (map jop_to_op (firstn k js)) \/
+     s = c_after now (map jop_to_op (firstn (S k) js))).
+Proof. exact crash_image_is_consistent. Qed.
+Theorem C04_power_image_consistent : forall now js k n img,
+  (k < length js)%nat -> admissible now (map jop_to_op js) ->
+  In img (power_images (crash_state js k n)) ->
+  exists s a, InvZ s a /\ replay img = parts_of s /\
+    (s = c_after now (map jop_to_op (firstn k js)) \/
+     s = c_after now (map jop_to_op (firstn (S k) js))).
+Proof. exact power_image_is_consistent. Qed.
+Theorem C04_crash_stream_sorted : forall now js k n,
+  (k < length js)%nat -> admissible now (map jop_to_op js) ->
+  exists live,
+    p_stream (replay (kill_image (crash_state js k n))) = map enc live /\
+    StronglySorted id_lt live /\ Forall frame_ok live.
+Proof. exact crash_stream_is_sorted_frames. Qed.
+Print Assumptions C04_crash_image_consistent.
+Print Assumptions C04_power_image_consistent.
+Print Assumptions C04_crash_stream_sorted.
+Check js7_admissible.
+Check js7_crash.
 
 (* what persist(SyncAll) is for: acknowledging after the commit alone loses the write on kill *)
 Check weak_persist_refuted.
